@@ -1,4 +1,4 @@
-import I2N.Lemmas.Trav
+import I2N.Lemmas.TravBasic
 import Batteries.Data.List.Perm
 /-!
 Mutual exclusion of the traversal model (property C04): the number of workers within one reuse scope
@@ -105,22 +105,6 @@ theorem foldr_max_mono {α} (l : List α) (f f' : α → Nat) (h : ∀ x ∈ l, 
 
 /-! ## copies, started sets -/
 
-theorem mem_classNodes (g : Graph) (c i : Nat) : i ∈ g.classNodes c ↔ i < g.nodes.length ∧ (g.node i).cls = c := by
-  simp [Graph.classNodes]
-
-theorem mem_copies (g : Graph) (n i : Nat) (hn : n < g.nodes.length) (hf : (g.node n).flat = false) :
-    i ∈ g.copies n ↔ i < g.nodes.length ∧ (g.node i).cls = (g.node n).cls := by
-  unfold Graph.copies
-  simp only [hf, Bool.false_eq_true, if_false, List.mem_cons, List.mem_filter, mem_classNodes, bne_iff_ne, ne_eq]
-  constructor
-  · rintro (rfl | h)
-    · exact ⟨hn, rfl⟩
-    · exact h.1
-  · intro h
-    by_cases hi : i = n
-    · exact Or.inl hi
-    · exact Or.inr ⟨h, hi⟩
-
 theorem mem_sharedStarted (g : Graph) (s : State) (n v : Nat) :
     v ∈ sharedStarted g s n ↔ ∃ i, i ∈ g.copies n ∧ (s.nd i).started = some v := by
   unfold sharedStarted
@@ -204,23 +188,10 @@ theorem Le.trans {s s' s'' : State} (h1 : Le s s') (h2 : Le s' s'') : Le s s'' :
 theorem Le.of_nd_eq {s s' : State} (h : ∀ i, s'.nd i = s.nd i) : Le s s' := by
   intro i; rw [h i]; exact ⟨Or.inl rfl, Nat.le_refl _⟩
 
-theorem nd_setNd_cases (s : State) (m : Nat) (f : NodeD → NodeD) (i : Nat) :
-    (s.setNd m f).nd i = s.nd i ∨ (i = m ∧ (s.setNd m f).nd i = f (s.nd i)) := by
-  by_cases hi : i = m
-  · subst hi
-    by_cases hl : i < s.nodes.length
-    · exact Or.inr ⟨rfl, nd_setNd_eq s i f hl⟩
-    · left
-      unfold State.setNd State.nd
-      simp only [List.getD_eq_getElem?_getD, List.getElem?_modify]
-      have : s.nodes[i]? = none := by simp; omega
-      simp [this]
-  · exact Or.inl (nd_setNd_ne s m i f hi)
-
 theorem Le.setNd (s : State) (m : Nat) (f : NodeD → NodeD)
     (hf : ∀ d, ((f d).started = d.started ∨ (f d).started = none) ∧ d.bump ≤ (f d).bump) : Le s (s.setNd m f) := by
   intro i
-  rcases nd_setNd_cases s m f i with h | ⟨_, h⟩
+  rcases nd_setNd_cases s m f i with h | ⟨_, _, h⟩
   · rw [h]; exact ⟨Or.inl rfl, Nat.le_refl _⟩
   · rw [h]; exact hf _
 
@@ -332,7 +303,7 @@ theorem inv_enter (g : Graph) (s : State) (next w : Nat) (hH : Homog g) (hI : In
     Inv g (s.setNd next (fun d => { d with started := some w })) := by
   apply inv_enter_abs g s _ next w hH hI hocc
   · intro i
-    rcases nd_setNd_cases s next (fun d => { d with started := some w }) i with h | ⟨h1, h2⟩
+    rcases nd_setNd_cases s next (fun d => { d with started := some w }) i with h | ⟨h1, _, h2⟩
     · rw [h]; exact Or.inl rfl
     · rw [h2]; exact Or.inr (Or.inr ⟨h1, rfl⟩)
   · intro i
@@ -350,27 +321,14 @@ structure SameStatic (g g' : Graph) : Prop where
   mct : ∀ i, (g'.node i).mct = (g.node i).mct
   maxTries : ∀ i, (g'.node i).maxTries = (g.node i).maxTries
 
-theorem vis_node (g : Graph) (s : State) (i : Nat) :
-    ∃ su cl, (vis g s).node i = { g.node i with setup := su, cleanup := cl } := by
-  unfold vis
-  split
-  · exact ⟨_, _, rfl⟩
-  · unfold Graph.node
-    simp only [List.getD_eq_getElem?_getD, List.getElem?_map, List.getElem?_zipIdx]
-    cases h : g.nodes[i]? with
-    | none => exact ⟨[], [], rfl⟩
-    | some nd =>
-      simp only [Option.map_some, Option.getD_some, Nat.zero_add]
-      split <;> exact ⟨_, _, rfl⟩
-
 theorem sameStatic_vis (g : Graph) (s : State) : SameStatic g (vis g s) where
   len := by unfold vis; split <;> simp
   workers := by unfold vis; split <;> rfl
-  cls i := by obtain ⟨su, cl, h⟩ := vis_node g s i; rw [h]
-  shape i := by obtain ⟨su, cl, h⟩ := vis_node g s i; rw [h]
-  flat i := by obtain ⟨su, cl, h⟩ := vis_node g s i; rw [h]
-  mct i := by obtain ⟨su, cl, h⟩ := vis_node g s i; rw [h]
-  maxTries i := by obtain ⟨su, cl, h⟩ := vis_node g s i; rw [h]
+  cls i := by obtain ⟨su, cl, h, _⟩ := vis_node g s i; rw [h]
+  shape i := by obtain ⟨su, cl, h, _⟩ := vis_node g s i; rw [h]
+  flat i := by obtain ⟨su, cl, h, _⟩ := vis_node g s i; rw [h]
+  mct i := by obtain ⟨su, cl, h, _⟩ := vis_node g s i; rw [h]
+  maxTries i := by obtain ⟨su, cl, h, _⟩ := vis_node g s i; rw [h]
 
 namespace SameStatic
 variable {g g' : Graph} (h : SameStatic g g')
